@@ -20,8 +20,8 @@ import catalog  # noqa: E402
 import extract  # noqa: E402
 
 BOUNDS = {
-    "quick": {"STK_CAP": 4, "STK_SEQ": 5, "BUF_CAP": 3, "BUF_SEQ": 5, "VLEN": 2, "EXTRA": 1},
-    "thorough": {"STK_CAP": 5, "STK_SEQ": 7, "BUF_CAP": 4, "BUF_SEQ": 7, "VLEN": 3, "EXTRA": 2},
+    "quick": {"STK_CAP": 4, "STK_SEQ": 5, "BUF_CAP": 3, "BUF_SEQ": 5, "VLEN": 2, "EXTRA": 1, "TOPO_N": 9, "TOPO_D": 3, "RUN_L": 2, "RUN_G": 2},
+    "thorough": {"STK_CAP": 5, "STK_SEQ": 7, "BUF_CAP": 4, "BUF_SEQ": 7, "VLEN": 3, "EXTRA": 2, "TOPO_N": 16, "TOPO_D": 3, "RUN_L": 4, "RUN_G": 2},
 }
 
 LOADS = {
@@ -40,20 +40,22 @@ LOADS = {
 
 STUB_ATTRS = """#[kani::stub(std::hash::RandomState::new, crate::stubs::random_state_new)]
 #[kani::stub(pushr::push::instructions::Instruction::new, crate::stubs::instruction_new)]
-#[kani::stub(std::collections::HashMap::insert, crate::stubs::hashmap_insert)]"""
+#[kani::stub(std::collections::HashMap::insert, crate::stubs::hashmap_insert)]
+#[kani::stub(f32::tan, crate::stubs::f32_any)]
+#[kani::stub(f32::powf, crate::gen::libm_table::powf_table)]"""
 
 
 def spec_fns():
     text = open(os.path.join(VERIF, "harness", "src", "spec.rs")).read()
     names = set(re.findall(r"pub fn ([A-Za-z0-9_]+)\(b: &Snap\) -> Want", text))
     # functions produced by the manip_fns! / id_fn! / *_binop! macros
-    for m in re.finditer(r"^(manip_fns|id_fn|bool_binop|int_binop|int_divop|int_cmp|flt_binop|flt_minmax|flt_cmp|flt_transc|vec_\w+)!\(([^;]*)\);", text, re.M):
+    for m in re.finditer(r"^([a-z_0-9]+)!\(([^;]*)\);", text, re.M):
         for tok in re.findall(r"\b([A-Z][A-Za-z0-9]*_[A-Za-z0-9_]+)\b", m.group(2)):
             names.add(tok)
     return {n for n in names if not n.endswith("_unused")}
 
 
-def shapes_for(needs, tier, byst=0):
+def shapes_for(needs, tier, byst=0, vlen_enum=True):
     """Cartesian product of the operand stacks' depths (0..need+EXTRA) and, for vector stacks, of the
     lengths of the top `need` vectors (0..VLEN). Bystander stacks: depth 1 (vectors of length 1)."""
     b = BOUNDS[tier]
@@ -79,7 +81,7 @@ def shapes_for(needs, tier, byst=0):
         # vector lengths: enumerate for the top `need` vectors of operand vector stacks
         vaxes = []
         for k in ("nbv", "niv", "nfv"):
-            if k in needs:
+            if k in needs and vlen_enum:
                 depth = sh[k]
                 nenum = min(depth, needs[k])
                 vaxes.append([(k, lens) for lens in itertools.product(range(0, vlen + 1), repeat=nenum)])
@@ -99,6 +101,15 @@ def shapes_for(needs, tier, byst=0):
             s2["lens"] = lens
             out.append(s2)
     return out
+
+
+def full_shapes(needs, tier):
+    """only the shapes in which every operand stack has at least its needed depth (the instruction fires)"""
+    out = []
+    for sh in shapes_for(needs, tier, 0, False):
+        if all(sh[k] == needs[k] for k in needs):
+            out.append(sh)
+    return out or shapes_for(needs, tier, 0, False)[:1]
 
 
 def shape_rs(sh):
@@ -125,55 +136,89 @@ def gen_instr(out_src, tier, harnesses, table, last):
         if name not in catalog.CAT:
             not_item_free.append(name)
             continue
-        prop, needs, pre = catalog.CAT[name]
-        shapes_by_mode = {"NoPanic": shapes_for(needs, tier, 0), "Sem": shapes_for(needs, tier, 0), "Frame": shapes_for(needs, tier, 1)}
+        prop, needs, pre, sem_pre = catalog.CAT[name]
+        opts = catalog.OPTS.get(name, {})
+        ve = opts.get("vlen_enum", True)
+        shapes_by_mode = {"NoPanic": shapes_for(needs, tier, 0, ve), "Sem": shapes_for(needs, tier, 0, ve), "Frame": shapes_for(needs, tier, 1, ve),
+                          "Twice": full_shapes(needs, tier), "Cost": full_shapes(needs, tier)}
         sfn = catalog.mangle(name)
         has_spec = sfn in specs
         if not has_spec:
             no_oracle.append(name)
-        pre_rs = "crate::instr::%s" % (pre or "pre_none")
+        pre_rs_np = "crate::instr::%s" % (pre or "pre_none")
+        pre_rs_sem = "crate::instr::%s" % (sem_pre or pre or "pre_none")
         modes = [("c01", "NoPanic", "C01")]
+        if prop != "C13" and name not in ("NAME.RAND", "NAME.RANDBOUNDNAME", "BOOLEAN.RAND"):
+            modes.append(("c14", "Twice", "C14"))
+        if ("ni" in needs or "nf" in needs) and not catalog.OPTS.get(name, {}).get("no_cost"):
+            modes.append(("c15", "Cost", "C15"))
         if has_spec:
             modes.append((prop.lower(), "Sem", prop))
             if prop != "C10":
                 modes.append(("c10", "Frame", "C10"))
         for tag, mode, pid in modes:
-            hname = "%s_%s" % (tag, ident(name))
             if mode == "Sem" and pid == "C10":
                 mode_rs = "Frame"
             else:
                 mode_rs = mode
-            body = []
-            body.append("#[kani::proof]")
-            body.append("#[kani::unwind(%d)]" % 10)
-            body.append(STUB_ATTRS)
-            body.append("pub fn %s() {" % hname)
-            body.append("    let mut ins = crate::stubs::fetch(%s, %d, %s);" % (LOADS[e["load"]], e["ord"], json.dumps(name)))
-            spec_rs = "Some(crate::spec::%s as SpecFn)" % sfn if mode != "NoPanic" else "None"
             shapes = shapes_by_mode[mode_rs]
+            pre_rs = pre_rs_np if mode_rs == "NoPanic" else pre_rs_sem
+            if mode_rs == "Cost":
+                pre_rs = "crate::instr::pre_none"
+            if mode_rs == "Twice":
+                pre_rs = pre_rs_np
+            spec_rs = "Some(crate::spec::%s as SpecFn)" % sfn if mode_rs in ("Sem", "Frame") else "None"
+            # one run = (shape, optional concrete index); chunk the runs so that a harness stays small
+            runs = []
             for sh in shapes:
-                body.append("    run_shape(&mut ins, &%s, %s, Mode::%s, %s);" % (shape_rs(sh), spec_rs, mode_rs, pre_rs))
-            body.append('    kani::cover!(true, "reached end");')
-            body.append("    std::mem::forget(ins);")
-            body.append("}")
-            mods.setdefault(tag, []).append("\n".join(body))
-            harnesses.append(
-                {
-                    "harness": "gen::instr_%s::%s" % (tag, hname),
-                    "property": pid,
-                    "kind": {"NoPanic": "no-panic", "Sem": "semantics", "Frame": "frame"}[mode_rs],
-                    "instruction": name,
-                    "function": e["func"],
-                    "module": e["module"],
-                    "shapes": len(shapes),
-                    "pre": pre,
-                    "sample": {"instruction": name, "shape": {k: v for k, v in shapes[len(shapes) // 2].items()}},
-                }
-            )
+                if opts.get("top_int") and sh["ni"] >= 1 and mode_rs != "Cost":
+                    for ix in opts["top_int"]:
+                        runs.append((sh, ix))
+                elif opts.get("idx_enum") and sh["ni"] >= 1:
+                    depth = max(sh[k] for k in needs if k != "ni")
+                    idxs = sorted({-2147483648, -1, 0, 1, depth - 1, depth, 2147483647}) if depth > 0 else [0, 2147483647]
+                    for ix in idxs:
+                        runs.append((sh, ix))
+                else:
+                    runs.append((sh, None))
+            chunk = 8
+            nchunks = (len(runs) + chunk - 1) // chunk
+            for ci in range(nchunks):
+                part = runs[ci * chunk:(ci + 1) * chunk]
+                hname = "%s_%s" % (tag, ident(name)) + ("" if nchunks == 1 else "_p%d" % ci)
+                body = []
+                body.append("#[kani::proof]")
+                body.append("#[kani::unwind(%d)]" % 10)
+                body.append(STUB_ATTRS)
+                body.append("pub fn %s() {" % hname)
+                body.append("    let mut ins = crate::stubs::fetch(%s, %d, %s);" % (LOADS[e["load"]], e["ord"], json.dumps(name)))
+                for sh, ix in part:
+                    if ix is None:
+                        body.append("    run_shape(&mut ins, &%s, %s, Mode::%s, %s);" % (shape_rs(sh), spec_rs, mode_rs, pre_rs))
+                    else:
+                        body.append("    run_shape_idx(&mut ins, &%s, %s, Mode::%s, %s, %d);" % (shape_rs(sh), spec_rs, mode_rs, pre_rs, ix))
+                body.append('    kani::cover!(true, "reached end");')
+                body.append("    std::mem::forget(ins);")
+                body.append("}")
+                mods.setdefault(tag, []).append("\n".join(body))
+                harnesses.append(
+                    {
+                        "harness": "gen::instr_%s::%s" % (tag, hname),
+                        "property": pid,
+                        "kind": {"NoPanic": "no-panic", "Sem": "semantics", "Frame": "frame", "Twice": "determinism", "Cost": "cost"}[mode_rs],
+                        "instruction": name,
+                        "function": e["func"],
+                        "module": e["module"],
+                        "shapes": len(part),
+                        "pre": pre if mode_rs == "NoPanic" else (sem_pre or pre),
+                        "index_operand": "concrete set" if opts.get("idx_enum") else "any i32",
+                        "sample": {"instruction": name, "shape": {k: v for k, v in part[len(part) // 2][0].items()}, "index": part[len(part) // 2][1]},
+                    }
+                )
     for tag, items in mods.items():
         with open(os.path.join(out_src, "gen", "instr_%s.rs" % tag), "w") as f:
             f.write("// GENERATED by tools/gen.py from /repo's current registry. Do not edit.\n")
-            f.write("use crate::instr::{run_shape, Mode, SpecFn};\nuse crate::state::Shape;\n\n")
+            f.write("use crate::instr::{run_shape, run_shape_idx, Mode, SpecFn};\nuse crate::state::Shape;\n\n")
             f.write("\n\n".join(items))
             f.write("\n")
     return sorted(mods.keys()), no_oracle, not_item_free
@@ -222,6 +267,41 @@ def gen_c16_seq(out_src, tier, seed, harnesses):
     open(os.path.join(out_src, "gen", "c16_seq.rs"), "w").write("\n\n".join(out) + "\n")
 
 
+def gen_registry(out_src, table, last):
+    """fetch_<NAME>() for hand-written harnesses: ordinal and load function come from the current source."""
+    out = ["// GENERATED from /repo's current registry.", "use pushr::push::instructions::Instruction;", ""]
+    for e in table:
+        if last[e["name"]] is not e:
+            continue
+        out.append("pub fn fetch_%s() -> Instruction {\n    crate::stubs::fetch(%s, %d, %s)\n}" % (catalog.mangle(e["name"]), LOADS[e["load"]], e["ord"], json.dumps(e["name"])))
+    open(os.path.join(out_src, "gen", "registry.rs"), "w").write("\n".join(out) + "\n")
+
+
+def gen_libm_table(out, out_src, tier):
+    """Compile tools/libm_table.rs natively and run it: the table is the REAL libm of this machine."""
+    import subprocess
+    b = BOUNDS[tier]
+    exe = os.path.join(out, "libm_table.bin")
+    subprocess.run(["rustc", "-O", "-o", exe, os.path.join(HERE, "libm_table.rs")], check=True, capture_output=True)
+    txt = subprocess.run([exe, str(b["TOPO_N"]), str(max(b["TOPO_D"], 4)), str(b["TOPO_N"])], check=True, capture_output=True, text=True).stdout
+    os.remove(exe)
+    open(os.path.join(out_src, "gen", "libm_table.rs"), "w").write(txt)
+
+
+def gen_c20(out_src, tier, harnesses):
+    b = BOUNDS[tier]
+    out = ["// GENERATED: one neighbourhood harness per (ntotal, ndim, centre); radius is any f32.",
+           "use crate::c20_topology::check_neighbors;", ""]
+    for n in range(1, b["TOPO_N"] + 1):
+        for d in range(1, b["TOPO_D"] + 1):
+            for i in range(n):
+                name = "c20_nb_n%d_d%d_i%d" % (n, d, i)
+                out.append("#[kani::proof]\n#[kani::unwind(%d)]\n#[kani::stub(f32::powf, crate::gen::libm_table::powf_table)]\npub fn %s() {\n    check_neighbors(%d, %d, %d);\n    kani::cover!(true, \"reached end\");\n}\n" % (n + 3, name, n, d, i))
+                harnesses.append({"harness": "gen::c20_gen::%s" % name, "property": "C20", "kind": "neighbourhood", "module": "d%d" % d,
+                                  "sample": {"ntotal": n, "ndim": d, "centre": i, "radius": "any f32"}})
+    open(os.path.join(out_src, "gen", "c20_gen.rs"), "w").write("\n".join(out))
+
+
 def scan_handwritten(out_src, harnesses):
     for fn in sorted(os.listdir(out_src)):
         if not re.match(r"c\d\d_.*\.rs$", fn):
@@ -231,7 +311,7 @@ def scan_handwritten(out_src, harnesses):
         pid = "C" + mod[1:3]
         names = re.findall(r"pub fn (c\d\d_[a-z0-9_]+)\(\)", text)
         # macro-generated: h!(name, ...) / hn!(name, ...)
-        names += re.findall(r"^\s*h[a-z0-9]*!\(\s*(c\d\d_[a-z0-9_]+)\s*,", text, re.M)
+        names += re.findall(r"^\s*[a-z_0-9]+!\(\s*(c\d\d_[a-z0-9_]+)\s*,", text, re.M)
         seen = set()
         for n in names:
             if n in seen:
@@ -268,9 +348,12 @@ def main():
             f.write("pub const %s: usize = %d;\n" % (k, v))
     tags, no_oracle, not_item_free = gen_instr(out_src, tier, harnesses, table, last)
     gen_c16_seq(out_src, tier, seed, harnesses)
+    gen_libm_table(out, out_src, tier)
+    gen_registry(out_src, table, last)
+    gen_c20(out_src, tier, harnesses)
     scan_handwritten(out_src, harnesses)
     with open(os.path.join(out_src, "gen", "mod.rs"), "w") as f:
-        f.write("pub mod bounds;\npub mod c16_seq;\n")
+        f.write("pub mod bounds;\npub mod c16_seq;\npub mod libm_table;\npub mod c20_gen;\npub mod registry;\n")
         for t in tags:
             f.write("pub mod instr_%s;\n" % t)
     meta = {
